@@ -266,4 +266,49 @@ class BuildIndex(object):
             shutil.rmtree(d, ignore_errors=True)
 
 
-FAMILIES = [Bfs(), Pairs(), BuildIndex()]
+class TwoCompilers(object):
+    name = 'two-compilers-one-directory'
+    describe = ('chains of three buildIndex() calls on ONE scratch directory issued by two MibCompiler objects in every turn-taking '
+                'pattern (AAA, AAB, ABA, ABB), the middle build for real or as a dry run, modules M1 M2 M3 with contents from a '
+                '6-item menu: the file on disk satisfies the invariants after every build and a dry run changes nothing')
+    MENU = [0, 1, 6, 7, 12, 17]
+
+    def blocks(self, tier):
+        return [{'who': w, 'dry': d} for w in ('AAA', 'AAB', 'ABA', 'ABB') for d in (0, 1)]
+
+    def cases(self, block, tier):
+        import itertools
+        for cs_ in itertools.product(self.MENU, repeat=3):
+            yield {'who': block['who'], 'dry': block['dry'], 'c': list(cs_)}
+
+    def run_case(self, case):
+        from pysmi.compiler import MibCompiler
+        from pysmi.writer.localfile import FileWriter
+        cs = contents('quick')
+        base = os.environ.get('VERIF_TMP') or ('/dev/shm' if os.path.isdir('/dev/shm') else None)
+        d = tempfile.mkdtemp(prefix='mcC18', dir=base)
+        try:
+            comps = dict((k, MibCompiler(env.shared_parser('smiV2'), env.JsonCodeGen(), FileWriter(d).setOptions(suffix='.json')))
+                         for k in 'AB')
+            vs = []
+            facts = set()
+            doc = ''
+            sig = 'C18|two-compilers|%s%s' % (case['who'], '|dry-run-in-the-middle' if case['dry'] else '')
+            for i, (name, ci) in enumerate(zip(('M1', 'M2', 'M3'), case['c'])):
+                dry = bool(case['dry'] and i == 1)
+                before = doc
+                comps[case['who'][i]].buildIndex({name: module_status(name, cs[ci])}, dryRun=dry)
+                path = os.path.join(d, 'index.json')
+                doc = open(path).read() if os.path.exists(path) else ''
+                if dry:
+                    if doc != before:
+                        vs.append(('%s|dry-run-changed-the-index' % sig, 'before %r\nafter %r' % (before, doc)))
+                    continue
+                facts |= facts_of(name, cs[ci])
+                vs += check_state(canon(doc), facts, sig)
+            return canon(doc), vs, 3
+        finally:
+            shutil.rmtree(d, ignore_errors=True)
+
+
+FAMILIES = [Bfs(), Pairs(), BuildIndex(), TwoCompilers()]
